@@ -410,11 +410,19 @@ def _call_single(kind, case, pts, q, track):
         return (r[0], r[1], r[2], r[3]), None
     from tracklib.core.obs_coords import ENUCoords
     from tracklib.algo.mapping import mapOnTrack
-    r = M.call(mapOnTrack, ENUCoords(q[0], q[1], 0.0), track)
+    qobj = ENUCoords(q[0], q[1], 0.0)
+    r = M.call(mapOnTrack, qobj, track)
     if M.is_raised(r):
         return None, r
     try:
         got = (r[1], r[0].getX(), r[0].getY(), r[2])
+        # aliasing the other way round: the caller goes on using ITS query coordinate (moves it to the next position);
+        # the point handed back for the earlier query must stay where it was
+        qobj.setX(qobj.getX() + 977.5)
+        qobj.setY(qobj.getY() - 311.25)
+        if (r[0].getX(), r[0].getY()) != (got[1], got[2]):
+            return ("the point handed back moved when the caller moved its own query coordinate afterwards (was %r, is %r)"
+                    % ((got[1], got[2]), (r[0].getX(), r[0].getY())), None, None, None), None
         # aliasing: the coordinate handed back belongs to the caller, who moves it (the queries that follow on the
         # same reference track are judged against the polyline as it was built)
         M.scribble(r[0])
